@@ -209,8 +209,13 @@ ExecResult runScenario(const Plan & p, bool recordTrace)
   Subject * s = new Subject();
   const std::string name = kName;
   switch (p.scenario) {
-    case S_SHARED_VAR: s->var.reset(new rc::SharedVariable<Blob>(Blob::make(0))); break;
-    case S_SHARED_OPT: s->opt.reset(new rc::SharedOptionalVariable<Blob>()); break;
+    // p.a != 0 selects the other constructor: default-constructed variable then store(), optional born with a value
+    case S_SHARED_VAR:
+      if (p.a != 0) {s->var.reset(new rc::SharedVariable<Blob>()); s->var->store(Blob::make(0));} else {s->var.reset(new rc::SharedVariable<Blob>(Blob::make(0)));}
+      break;
+    case S_SHARED_OPT:
+      if (p.a != 0) {s->opt.reset(new rc::SharedOptionalVariable<Blob>(Blob::make(kInitialOptionalSeq)));} else {s->opt.reset(new rc::SharedOptionalVariable<Blob>());}
+      break;
     case S_ONLINE_AVG: s->avg.reset(new rc::OnlineAverage(1.0, (size_t)p.W)); break;
     case S_ONLINE_VAR: s->variance = new rc::OnlineVariance(1.0, (size_t)p.W); s->avg.reset(s->variance); break;
     case S_CHECKUP_EQ: s->chk.reset(new rc::CheckupEqualTo<double>(name, p.a, p.b)); break;
